@@ -79,15 +79,28 @@ impl Ctx<'_> {
     }
 }
 
-fn random_circuit(seed: u64, q: usize, d: usize, p: [u32; 5]) -> Built {
+/// `via`: how the probabilities are set: 0 = the five setters, 1 = uniform(), 2 = clifford_t(0.25), 3 = p_t(0.1).with_cliffords()
+/// (`p` then holds the resulting probabilities in percent, for the contract)
+fn random_circuit(seed: u64, q: usize, d: usize, p: [u32; 5], via: u32) -> Built {
     guarded(|| {
         let f = |x: u32| x as f32 / 100.0;
+        let cfg = |b: &mut quizx::generate::RandomCircuitBuilder| {
+            b.seed(seed).qubits(q).depth(d);
+            match via {
+                1 => b.uniform(),
+                2 => b.clifford_t(0.25),
+                3 => b.p_t(0.1).with_cliffords(),
+                _ => b.p_cnot(f(p[0])).p_cz(f(p[1])).p_h(f(p[2])).p_s(f(p[3])).p_t(f(p[4])),
+            };
+        };
         let mut b = Circuit::random();
-        b.seed(seed).qubits(q).depth(d).p_cnot(f(p[0])).p_cz(f(p[1])).p_h(f(p[2])).p_s(f(p[3])).p_t(f(p[4]));
+        cfg(&mut b);
         let c1 = b.build();
         b.seed(seed);
         let c2 = b.build();
-        let c3 = Circuit::random().seed(seed).qubits(q).depth(d).p_cnot(f(p[0])).p_cz(f(p[1])).p_h(f(p[2])).p_s(f(p[3])).p_t(f(p[4])).build();
+        let mut b3 = Circuit::random();
+        cfg(&mut b3);
+        let c3 = b3.build();
         let eq = c1 == c2 && c1 == c3;
         (json!({"c": circ_json(&c1)}), json!({"c": circ_json(&c2)}), eq)
     })
@@ -168,10 +181,20 @@ pub fn record(args: &[String], seed: u64, tr: &mut Tr) -> Value {
         for q in 1..=5usize {
             for d in [0usize, 1, 5, 12] {
                 for p in probs {
-                    let params = json!({"qubits": q, "depth": d, "p_cnot": p[0], "p_cz": p[1], "p_h": p[2], "p_s": p[3], "p_t": p[4]});
+                    let params = json!({"qubits": q, "depth": d, "p_cnot": p[0], "p_cz": p[1], "p_h": p[2], "p_s": p[3], "p_t": p[4], "via": 0});
                     cx.begin("random_circuit", &params);
                     for (i, &s) in seeds.iter().enumerate() {
-                        cx.build("random_circuit", "", s, &params, i == 0, || random_circuit(s, q, d, p));
+                        cx.build("random_circuit", "", s, &params, i == 0, || random_circuit(s, q, d, p, 0));
+                    }
+                }
+                // the convenience methods of the builder (two-qubit gates: at least 2 qubits)
+                if q >= 2 && d > 0 {
+                    for (via, p) in [(1u32, [20u32, 20, 20, 20, 20]), (2, [25, 0, 25, 25, 25]), (3, [30, 0, 30, 30, 10])] {
+                        let params = json!({"qubits": q, "depth": d, "p_cnot": p[0], "p_cz": p[1], "p_h": p[2], "p_s": p[3], "p_t": p[4], "via": via});
+                        cx.begin("random_circuit", &params);
+                        for (i, &s) in seeds.iter().enumerate() {
+                            cx.build("random_circuit", "", s, &params, i == 0, || random_circuit(s, q, d, p, via));
+                        }
                     }
                 }
             }
@@ -179,9 +202,9 @@ pub fn record(args: &[String], seed: u64, tr: &mut Tr) -> Value {
         // no qubit at all: admissible only without gates
         for d in [0usize, 2] {
             let p = [0, 0, 50, 50, 0];
-            let params = json!({"qubits": 0, "depth": d, "p_cnot": p[0], "p_cz": p[1], "p_h": p[2], "p_s": p[3], "p_t": p[4]});
+            let params = json!({"qubits": 0, "depth": d, "p_cnot": p[0], "p_cz": p[1], "p_h": p[2], "p_s": p[3], "p_t": p[4], "via": 0});
             cx.begin("random_circuit", &params);
-            cx.build("random_circuit", "", seeds[0], &params, false, || random_circuit(seeds[0], 0, d, p));
+            cx.build("random_circuit", "", seeds[0], &params, false, || random_circuit(seeds[0], 0, d, p, 0));
         }
     }
 
